@@ -38,7 +38,7 @@ def _case(draw):
     cur = draw(st.sampled_from([True, True, True, False]))
     spec = draw(D.dataset_spec(dense=True, raw=False, features=False, tfeatures=False,
                                naming='ks', curated=cur, max_nc=16, int_templates=False,
-                               amplitudes=True))
+                               amplitudes=True, footprints=True))
     ns = spec['ns']
     edits = draw(st.lists(st.tuples(st.integers(0, ns - 1), st.integers(0, 14)), max_size=4))
     return {'spec': spec, 'ncc': draw(st.integers(2, 12)), 'edits': [list(e) for e in edits]}
